@@ -500,7 +500,7 @@ func init() {
 					return
 				}
 			}
-			if vh.IsSim && time.Since(t0) != 0 {
+			if vh.IsSim && vh.Took(time.Since(t0)) {
 				vh.FlagAnomaly("c09 system burst took virtual time")
 			}
 			vh.Settle()
